@@ -122,8 +122,12 @@ class TracingCompiler(BytecodeCompiler):
         return call
     def compile(self):
         exprs, sink = self._exprs, self._sink
+        def snap(v):      # lists are mutable (indexed stores): record the value as it is NOW
+            if isinstance(v, list): return [snap(x) for x in v]
+            if isinstance(v, tuple): return tuple(snap(x) for x in v)
+            return v
         def trace(k, v):
-            sink(exprs[k], v)
+            sink(exprs[k], snap(v))
             return v
         self.foreign_vals['__c14_trace'] = trace
         return super().compile()
@@ -165,7 +169,33 @@ HEADER = '''import fpy2 as fp
 from fpy2.number import RealFloat
 from fpy2.number.context.mpb_float import MPBFloatContext
 from fpy2.number.context.mpb_fixed import MPBFixedContext
-''' + ''.join(f'{k} = {v}\n' for k, v in CTX_SRC.items())
+''' + ''.join(f'{k} = {v}\n' for k, v in CTX_SRC.items()) + '''
+@fp.fpy
+def h_sq(a: fp.Real):
+    with E6:
+        r = a * a
+    return r
+
+@fp.fpy
+def h_min(a: fp.Real, b: fp.Real):
+    with fp.REAL:
+        if a < b:
+            r = a
+        else:
+            r = b
+    return r
+
+@fp.fpy
+def h_scale(a: fp.Real):
+    with fp.REAL:
+        r = a * 4 + 1
+    return r
+
+@fp.fpy
+def h_dbl(a: fp.Real):
+    r = a + a
+    return r
+'''
 
 # (kind, number of arguments, body with {C1} {C2} placeholders)
 TEMPLATES = [
@@ -245,6 +275,14 @@ TEMPLATES = [
             acc = acc + x
     return acc
 '''),
+    ('for-known-mul', 1, '''    with fp.REAL:
+        acc = 1
+        s = 0
+        for i in range(4):
+            acc = acc * x
+            s = s + acc
+    return s
+'''),
     ('for-ctx', 2, '''    with {C1}:
         acc = y
         for i in range(4):
@@ -259,6 +297,73 @@ TEMPLATES = [
             n = n + 1
     return acc
 '''),
+    ('calls', 2, '''    with fp.REAL:
+        u = h_sq(x)
+        v = h_sq(y)
+        w = h_min(u, x) + h_min(y, v)
+        z = h_scale(x) - h_scale(w)
+    return z
+'''),
+    ('calls-ctx', 2, '''    with {C1}:
+        u = h_dbl(x)
+        v = h_dbl(y)
+        w = h_dbl(u) + v
+    with fp.REAL:
+        z = h_dbl(w) + h_scale(u)
+    return z
+'''),
+    ('lists', 2, '''    with fp.REAL:
+        xs = [x, y, x * y]
+        t = xs[1]
+        s = sum(xs)
+        ys = [q + 1 for q in xs]
+        acc = 0
+        for q in ys:
+            acc = acc + q
+        m = max(x, y) + min(x, y)
+        zs = [x for i in range(3)]
+        zs[1] = y
+        e = zs[2] + zs[1]
+    return acc + m + e + t + s
+'''),
+    ('lists-ctx', 2, '''    with {C1}:
+        xs = [x + y, x * y, y]
+        ys = [q * x for q in xs]
+        s = sum(ys)
+        acc = x
+        for q in xs:
+            acc = acc + q
+        t = ys[0]
+    with fp.REAL:
+        z = s + acc + t
+    return z
+'''),
+    ('set-arith', 1, '''    with fp.REAL:
+        k = 3
+        b = k * 0.5 - 2
+        c = b * x
+        d = (k if x > 1 else -k)
+        e = d * b + c
+        g = abs(d) - k
+    with {C1}:
+        h = e * 0.1
+    return h + g
+'''),
+    ('one-sided-overflow', 1, '''    with {C1}:
+        a = -x
+        b = fp.round(x)
+        c = x + x
+    with fp.REAL:
+        d = a + b + c
+    return d
+'''),
+    ('select', 2, '''    with fp.REAL:
+        m = min(x, y)
+        n = max(x, y)
+        c = min(max(x, -3), 8)
+        d = max(min(y, x, 4), -8)
+    return m + n + c + d
+'''),
     ('while-ctx', 2, '''    acc = x
     n = 0
     while n < 5 and acc < y:
@@ -271,6 +376,7 @@ TEMPLATES = [
 ]
 
 ARG_CTXS = ['S8', 'U8', 'S4', 'I', 'FX', 'E4', 'E6', 'MS', 'MB', 'M2', 'M3', 'H', 'F']
+ONE_SIDED = [('U8', 'S8'), ('S8', 'U8'), ('U8', 'MBF'), ('S4', 'U8'), ('MB', 'MBF'), ('I', 'S8'), ('S4', 'S8'), ('FX', 'S4')]   # (argument, scope)
 OP_CTXS = ['E4', 'E6', 'MS', 'MB', 'MB3', 'M1', 'M2', 'M3', 'M11', 'S8', 'S4', 'FX', 'I', 'H', 'F', 'MBF']
 
 def arg_values(C, R, ctx, cap):
@@ -340,6 +446,16 @@ def classify(C, kind, e, d, v, info, du=None):
         return None, f'prog-negative-zero-missed-at-{op}'
     if v in ('pinf', 'ninf', 'nan'): return None, f'prog-special-missed-at-{op}'
     try:
+        if op in ('Min', 'Max'):
+            # C14-select exactly: `exact_select` tightens with the bound of an operand that may be the far infinity
+            from fpy2.analysis.format_infer.analysis import _to_abstract
+            ops_af = []
+            for a in e.args:
+                try: ops_af.append(C.af_desc(_to_abstract(info.by_expr.get(a))))
+                except Exception: ops_af.append(None)   # noqa
+            if all(o is not None for o in ops_af) and any(o[4][0 if op == 'Min' else 1] for o in ops_af):
+                joined_ok = any(C.spec_member(o, v) for o in ops_af)
+                if joined_ok: return 'C14-select', 'prog-select-bound-from-operand-that-may-be-inf'
         if op in ('Round', 'Cast'):
             scope = info.ctx_use.find_scope_from_use(e).ctx
             if _le_via_f10(C, _af_desc_of(C, info.by_expr.get(e.arg)), _af_desc_of(C, scope.format())):
@@ -376,6 +492,65 @@ def classify(C, kind, e, d, v, info, du=None):
         return 'F10', 'prog-le-skips-precision-when-exp-unbounded'
     return None, f'prog-finite-missed-at-{op}'
 
+def check_function(rep, C, name, kind, f, an_ctx, arg_fmts, run_ctx, combos, meta, on_run=None):
+    """analyse `f` with the pinned context / argument formats, run it traced on every input combination and check
+    every observed value (every expression, the result) against the format inferred for it.
+    Returns (analysed 0/1, runs, value checks).  `on_run(combo, obs)` sees the raw observations of each run."""
+    try:
+        info = FormatInfer.analyze(f.ast, fn_fmt=FunctionFormat(an_ctx, arg_fmts, None))
+    except Exception as e:   # noqa
+        rep.count('prog:analysis-raises:' + type(e).__name__); return 0, 0, 0
+    rep.count('prog:kind:' + kind)
+    try:
+        from fpy2.analysis import DefineUse
+        du = DefineUse.analyze(f.ast)
+    except Exception:   # noqa
+        du = None
+    nrun = nchk = 0
+    reported = set()
+    for combo in combos:
+        obs = []
+        try:
+            res = run_traced(f, [C.v_float(v) for v in combo], run_ctx, lambda e, v: obs.append((e, v)))
+        except Exception as e:   # noqa
+            rep.count('prog:run-raises:' + type(e).__name__); continue
+        nrun += 1
+        if on_run is not None: on_run(combo, obs)
+        obs.append(('ret', res))
+        for (e, val) in obs:
+            fb = info.fn_fmt.ret_fmt if isinstance(e, str) else info.by_expr.get(e)
+            ok = bound_member(C, fb, val, rep)
+            if ok is None: continue
+            nchk += 1
+            site = 'return value' if isinstance(e, str) else e.format() if hasattr(e, 'format') else str(e)
+            rep.distinct.add((name, site, str(val)))
+            if ok is False:
+                v = to_v(C, val)
+                d = fmt_desc(fb) if isinstance(fb, Format) else None
+                fid, shape = classify(C, kind, e, d, v, info, du)
+                key = (site, shape)
+                if key in reported: break
+                reported.add(key)
+                C.viol(rep, shape, 'a run-time value is not a member of the inferred format',
+                       {'stage': 'program', 'kind': kind, 'contexts': meta,
+                        'source': f.ast.format(), 'inputs': [C.v_str(v) for v in combo], 'site': site, 'value': C.v_str(v) if v is not None else repr(val),
+                        'inferred': repr(fb), 'shape': shape, 'finding': fid})
+                break     # later misses of the same run are consequences of this one
+    return 1, nrun, nchk
+
+def load_generated(rep, tmp, modname, text):
+    """write a generated module under the temp dir and import it (registered, so inspect.getsource works)"""
+    path = os.path.join(tmp, modname + '.py')
+    with open(path, 'w') as f: f.write(text)
+    spec = importlib.util.spec_from_file_location(modname, path)
+    mod = importlib.util.module_from_spec(spec)
+    sys.modules[modname] = mod
+    try:
+        spec.loader.exec_module(mod)
+    except Exception:
+        rep.broke('harness', f'C14.programs.import.{modname}', traceback.format_exc()); return None
+    return mod
+
 def stage_programs(rep, R, tier, C):
     tmp = tempfile.mkdtemp(prefix='c14prog_', dir='/var/tmp')
     try:
@@ -384,10 +559,12 @@ def stage_programs(rep, R, tier, C):
         shutil.rmtree(tmp, ignore_errors=True)
 
 def _stage_programs(rep, R, tier, C, tmp):
-    nprog = 70 if tier == 'quick' else 600
+    nprog = 90 if tier == 'quick' else 600
     progs = []
     # every template at least twice, then random
-    order = [t for t in TEMPLATES for _ in range(2)]
+    order = [t for t in TEMPLATES for _ in range(len(ONE_SIDED) if t[0] == 'one-sided-overflow' else 2)]
+    n_one_sided = 0
+    n_select = 0
     while len(order) < nprog: order.append(R.choice(TEMPLATES))
     src = [HEADER]
     for i, (kind, nargs, body) in enumerate(order[:nprog]):
@@ -398,7 +575,18 @@ def _stage_programs(rep, R, tier, C, tmp):
             c1 = R.choice([c for c in OP_CTXS if not c.startswith('M') or c in ('MS', 'MB', 'MB3', 'MBF')])
         acs = [R.choice(ARG_CTXS) for _ in range(nargs)]
         if kind.startswith('real-') and R.random() < 0.6: acs = [R.choice(['S8', 'U8', 'S4', 'I', 'FX'])] + acs[1:]
-        outer = 'R' if kind.startswith('while') else R.choice(['R', c1])
+        if kind.startswith('for-known'): acs = [R.choice(['S8', 'U8', 'S4', 'FX', 'E4', 'E6', 'MB', 'H'])]   # bounded: the iteration count shows in the bounds
+        if kind == 'one-sided-overflow':
+            # the operand range leaves the scope's range on ONE side only (wrapping / saturating scopes); every pair once, then random
+            a0, c1 = ONE_SIDED[n_one_sided % len(ONE_SIDED)] if n_one_sided < len(ONE_SIDED) else R.choice(ONE_SIDED)
+            n_one_sided += 1
+            acs = [a0]
+        if kind == 'select':      # an operand with a small finite bound that may also be an infinity; the first two fixed, then random
+            n_select += 1
+            if n_select <= 2: acs = [('S8', 'E4'), ('U8', 'E6')][n_select - 1]
+            elif R.random() < 0.7: acs = [R.choice(['S8', 'I', 'H', 'U8']), R.choice(['E4', 'E6', 'MB'])]
+            acs = list(acs)
+        outer = 'R' if kind.startswith('while') or kind == 'one-sided-overflow' else R.choice(['R', c1])
         name = f'p{i}'
         params = ', '.join(f'{v}: fp.Real' for v in ['x', 'y'][:nargs])
         src.append(f'\n@fp.fpy\ndef {name}({params}):\n' + body.format(C1=c1, C2=c2))
@@ -423,49 +611,14 @@ def _stage_programs(rep, R, tier, C, tmp):
     for (name, kind, nargs, c1, c2, acs, outer) in progs:
         f = getattr(mod, name)
         cs = {'C1': c1, 'C2': c2, 'args': acs, 'outer': outer}
-        try:
-            info = FormatInfer.analyze(f.ast, fn_fmt=FunctionFormat(ctxs[outer], tuple(ctxs[a].format() for a in acs), None))
-        except Exception as e:   # noqa
-            rep.count('prog:analysis-raises:' + type(e).__name__); continue
-        rep.count('prog:kind:' + kind)
-        try:
-            from fpy2.analysis import DefineUse
-            du = DefineUse.analyze(f.ast)
-        except Exception:   # noqa
-            du = None
         cap = 7 if nargs == 2 else 16
         vlists = [arg_values(C, R, ctxs[a], cap) for a in acs]
         combos = list(itertools.product(*vlists))
         R.shuffle(combos)
-        reported = set()
-        for combo in combos[: (40 if tier == 'quick' else 150)]:
-            obs = []
-            try:
-                res = run_traced(f, [C.v_float(v) for v in combo], ctxs[outer], lambda e, v: obs.append((e, v)))
-            except Exception as e:   # noqa
-                rep.count('prog:run-raises:' + type(e).__name__); continue
-            nrun += 1
-            obs.append(('ret', res))
-            for (e, val) in obs:
-                fb = info.fn_fmt.ret_fmt if isinstance(e, str) else info.by_expr.get(e)
-                ok = bound_member(C, fb, val, rep)
-                if ok is None: continue
-                nchk += 1
-                site = 'return value' if isinstance(e, str) else e.format() if hasattr(e, 'format') else str(e)
-                rep.distinct.add((name, site, str(val)))
-                if ok is False:
-                    v = to_v(C, val)
-                    d = fmt_desc(fb) if isinstance(fb, Format) else None
-                    fid, shape = classify(C, kind, e, d, v, info, du)
-                    key = (site, shape)
-                    if key in reported: break
-                    reported.add(key)
-                    C.viol(rep, shape, 'a run-time value is not a member of the inferred format',
-                           {'stage': 'program', 'kind': kind, 'contexts': {k: (CTX_SRC[x] if isinstance(x, str) else [CTX_SRC[y] for y in x]) for k, x in cs.items()},
-                            'source': f.ast.format(), 'inputs': [C.v_str(v) for v in combo], 'site': site, 'value': C.v_str(v) if v is not None else repr(val),
-                            'inferred': repr(fb), 'shape': shape, 'finding': fid})
-                    break     # later misses of the same run are consequences of this one
-        nobs += 1
+        a, b, c = check_function(rep, C, name, kind, f, ctxs[outer], tuple(ctxs[a].format() for a in acs), ctxs[outer],
+                                 combos[: (40 if tier == 'quick' else 150)],
+                                 {k: (CTX_SRC[x] if isinstance(x, str) else [CTX_SRC[y] for y in x]) for k, x in cs.items()})
+        nobs += a; nrun += b; nchk += c
     # --- elim_round end-to-end
     from fpy2.strategies import elim_round
     for (name, a, c1, c2) in elim:
@@ -495,7 +648,7 @@ def _stage_programs(rep, R, tier, C, tmp):
     rep.cov['programs_analysed'] = nobs
     rep.cov['program_runs'] = nrun
     rep.cov['program_value_checks'] = nchk
-    rep.cov['program_rule'] = ('15 templates (straight-line exact arithmetic under REAL, operations under a rounding context, chained rounds, '
+    rep.cov['program_rule'] = ('23 templates (min/max selections, operands leaving the scope range on one side only, calls of FPy functions with call-site formats, lists / comprehensions / sum / indexed stores, literal set arithmetic, straight-line exact arithmetic under REAL, operations under a rounding context, chained rounds, '
                                'branch join with different contexts, branch refinement by comparisons, if-expressions, for loops with known count, '
                                'while loops reaching the widening limit) x random contexts from 18 small contexts x argument formats from 13; inputs = '
                                'zeros, specials, window values and extremes representable in the argument format; every expression traced; + 7 elim_round pairs')
